@@ -1081,11 +1081,15 @@ mod rec {
         }
     }
 
-    pub struct Rec<'a>(pub &'a mut Vec<String>);
+    pub struct Rec<'a>(pub &'a mut Vec<String>, pub bool);
 
+    /// records the Serializer calls made for `v`, once as a human-readable and once as a
+    /// compact (non-human-readable) format
     pub fn record<T: Serialize + ?Sized>(v: &T) -> Vec<String> {
         let mut calls = Vec::new();
-        let _ = v.serialize(Rec(&mut calls));
+        let _ = v.serialize(Rec(&mut calls, true));
+        calls.push("|compact:".into());
+        let _ = v.serialize(Rec(&mut calls, false));
         calls
     }
 
@@ -1105,6 +1109,9 @@ mod rec {
         type SerializeMap = Impossible<(), E>;
         type SerializeStruct = Impossible<(), E>;
         type SerializeStructVariant = Impossible<(), E>;
+        fn is_human_readable(&self) -> bool {
+            self.1
+        }
         prim!(serialize_bool: bool, serialize_i8: i8, serialize_i16: i16, serialize_i32: i32, serialize_i64: i64,
               serialize_u8: u8, serialize_u16: u16, serialize_u32: u32, serialize_u64: u64,
               serialize_f32: f32, serialize_f64: f64, serialize_char: char, serialize_str: &str, serialize_bytes: &[u8]);
